@@ -69,6 +69,8 @@ var pools = []Pool{
 	{Text: map[int]string{1: "quote \" and ' and > gt", 2: "{\\an8} brace"}, Color: map[int]string{1: "white", 2: "#0a0b0c"}},
 	// texts that literally contain entity-looking character sequences: they must survive one level of escaping
 	{Text: map[int]string{1: "AT&amp;T literally", 2: "&lt;b&gt; is not a tag&nbsp;here"}, Color: map[int]string{1: "#010203", 2: "black"}},
+	// a run that holds a no-break space and nothing else (written as the entity): it is text, not padding
+	{Text: map[int]string{1: "top", 2: "\u00a0"}, Color: map[int]string{1: "#040506", 2: "green"}},
 }
 
 func PoolFor(n int) Pool { return pools[((n%len(pools))+len(pools))%len(pools)] }
@@ -132,7 +134,8 @@ func Concretise(d Doc, p Pool) []byte {
 			arrow := []string{" --> ", "  -->   ", "-->"}[t.Sp]
 			b.WriteString(fmtTime(t.S, t.Sep, t.Fd) + arrow + fmtTime(t.E, t.Sep, t.Fd))
 			if t.Xy {
-				b.WriteString("  X1:40 X2:600 Y1:20 Y2:50")
+				// the coordinates follow the end time after white space: blanks or a tab
+				b.WriteString([]string{"  ", "\t", " \t "}[(t.S+t.Fd)%3] + "X1:40 X2:600 Y1:20 Y2:50")
 			}
 		case "text":
 			for _, it := range t.Its {
